@@ -20,7 +20,10 @@ RULE = ("universes of 1..4 documents (root + Loader documents) with embedded res
         "URI, canonical-id vs retrieval-URI alias), BaseURI empty/absolute/urn, Loader present/absent, Loader failures on subsets; "
         "targets carry unique const marks; expected verdicts by construction (urllib RFC 3986) where predictable; also net/url vs "
         "model on (base, ref) pairs; definitions whose NAME contains a raw '/' beside a sibling whose name is a prefix of it (`a` and `a/not`): "
-        "the raw pointer #/$defs/a/not selects a's subschema (or nothing), #/$defs/a~1not the member; REGISTRY universes (~3 %, op "
+        "the raw pointer #/$defs/a/not selects a's subschema (or nothing), #/$defs/a~1not the member; ~5 %: two or three DISTINCT resources (embedded or "
+        "Loader documents) whose URIs are near twins — trailing slash, empty path segment, one character percent-encoded (%2F, %3A, %7E ...) — "
+        "each referenced, each reference must reach its own member; in draft-07 universes also $id with an empty fragment (`x.json#`: still a "
+        "base URI) and `$id: #name` beside `$ref` (ignored: designates nothing, shadows nothing); REGISTRY universes (~3 %, op "
         "validate-go): a Loader that serves ONE parsed *Schema object under two URLs (/v1/ and /latest/), including the object being "
         "resolved, which refers to itself through the alias URL and to siblings by relative $ref — such a Loader is outside the Lean model "
         "(resolve_sound assumes LoaderFresh; one info table), so these operations are NOT sent to the model: they are judged by the "
@@ -63,6 +66,11 @@ def gen(rng, tier, n):
             continue
         if r < 0.11:
             args, meta = gen_refs.slash_defs(rng, "2020" if rng.random() < 0.75 else "7")
+            ops.append({"op": "validate", "args": args, "meta": meta})
+            continue
+        if r < 0.16:
+            # near-twin resource URIs (trailing slash, empty segment, one character percent-encoded): distinct resources
+            args, meta = gen_refs.twin_universe(rng, "2020" if rng.random() < 0.75 else "7")
             ops.append({"op": "validate", "args": args, "meta": meta})
             continue
         draft = "2020" if rng.random() < 0.75 else "7"
